@@ -185,6 +185,10 @@ func TestC08Shutdown(t *testing.T) {
 	curT = t
 	p := baseProfile
 	p.shutdownPct = 100
+	p.holds = []string{"verify", "stored", "reply"}
+	p.holdPct = 25
+	p.cancelCallerPct = 70
+	p.prePct = 8
 	p.lateOps = []string{"register", "unregister", "unregister", "enable", "report", "reportblock", "reporterr", "done", "view"}
 	p.wRegister, p.wUnregister, p.wReleaseCB = 4, 2, 1
 	p.unregTwicePct = 40
